@@ -200,6 +200,7 @@ class MerchantEngine:
                 if match:
                     lhs, rhs = match.groups()
                     try:
+                        expr_parser.parse_expression(rhs)
                         if lhs.startswith('field.'):
                             # Field transform: field.description = regex_replace(...)
                             self.transforms.append((lhs, rhs))
